@@ -224,6 +224,34 @@ def _run_map(desc):
                                  {"error": float(err[k]), "second_order_bound": float(bound[k]), "stretch_delta": float(dl[~mask][k])})
             sh.evaluations += nv
             sh.nontrivial += nv
+    # exactly axis-aligned grains (matrices with exact zeros, as typed in by hand or produced by symmetry operators): cell axes along
+    # +-x, +-y, +-z in every proper arrangement, with an axial stretch; a zero entry is a legal value, not an empty voxel
+    if all(abs(x - 90) < 1e-12 for x in cell[3:]):
+        ex = []
+        for perm in itertools.permutations(range(3)):
+            for signs in itertools.product((1, -1), repeat=3):
+                P = np.zeros((3, 3))
+                for r_ in range(3):
+                    P[r_, perm[r_]] = signs[r_]
+                if np.linalg.det(P) > 0:
+                    for st in ((1.0, 1.0, 1.0), (1.01, 0.995, 1.002)):
+                        ex.append(np.dot(np.diag([cell[0] * st[0], cell[1] * st[1], cell[2] * st[2]]), P))
+        ex = np.array(ex)
+        ws_ = np.array([gm.grain(u).eps_sample_matrix(cell, 0.5) for u in ex])
+        wc_ = np.array([gm.grain(u).eps_grain_matrix(cell, 0.5) for u in ex])
+        shape = (1, 1, len(ex))
+        cells = np.broadcast_to(np.array(cell, float), shape + (6,)).copy()
+        es = tm.ubi_and_unitcell_to_eps_sample(ex.reshape(shape + (3, 3)), cells)[0, 0]
+        ec = tm.ubi_and_unitcell_to_eps_crystal(ex.reshape(shape + (3, 3)), cells)[0, 0]
+        for name, got, want in (("eps_sample", es, ws_), ("eps_crystal", ec, wc_)):
+            d = np.abs(got - want).max(axis=(1, 2))
+            if np.isnan(d).any() or d.max() > 1e-10:
+                k = int(np.argmax(np.where(np.isnan(d), np.inf, d)))
+                sh.violation("tensor_map.%s:axis-aligned-grain-differs-from-per-grain-strain" % name,
+                             {"kind": "map", "cell": cell, "shape": list(shape), "seed": seed_of(), "voxel": k, "ubi": ex[k]},
+                             {"got": got[k], "expected": want[k]})
+        sh.evaluations += len(ex)
+        sh.nontrivial += len(ex)
     # history: the UBI map of ONE TensorMap is replaced after strains were read; the strains must follow
     shape = (1, 1, 6)
     ubA = ubis[:6].reshape(shape + (3, 3)).copy()
